@@ -278,6 +278,14 @@ def correspondence(ctx):
                 break
             ctx.count("suite.shipped")
             gl.run_attributed(ctx, c06.shipped_case(i, with_suite=True), lambda c, k: run_cases(c, [k]))
+        for _ in range(14 if thorough else 1):
+            if ctx.remaining(budget + (300 if thorough else 45)) < 0:
+                break
+            ctx.count("suite.shipped.random")
+            sc = gl.gen_shipped_case(rng)
+            if sc["mode"] == "lazy":
+                sc.pop("order", None)
+            gl.run_attributed(ctx, sc, lambda c, k: run_cases(c, [k]))
     finally:
         gl.cleanup()
 
